@@ -45,9 +45,15 @@ def normalize(c, obs):
     ops2, steps2 = [], [steps[0]]
     prev = steps[0]
     dropped = 0
+    pings = 0
     for o, s in zip(c["ops"], steps[1:]):
         if o["op"] == "add" and o.get("route") in SCRIPT_ROUTES and s["r"] == 1 and s["look"] == prev["look"]:
             dropped += 1
+            continue
+        # objcall ping: an ordinary method of the shared object that resolves nothing; it has no counterpart in the model
+        # and is removed when it answered 1 and changed no lookup (anything else stays and fails the comparison)
+        if o["op"] == "objcall" and o.get("route") == "ping" and s["r"] == 5 and s["d"] == 1 and s["look"] == prev["look"]:
+            pings += 1
             continue
         # TempVM.LoadPkg does not consult the spl autoload callbacks (GetOrLoadClass / GetOrLoadInterface and the base's
         # LoadPkg do): a LoadPkg on a TempVM of a callback-only name that finds nothing and changes no lookup on any VM
@@ -59,7 +65,7 @@ def normalize(c, obs):
         ops2.append(o)
         steps2.append(s)
         prev = s
-    if not dropped:
+    if not dropped and not pings:
         return c, obs, 0
     return dict(c, ops=ops2), dict(obs, steps=steps2), dropped
 
@@ -91,7 +97,7 @@ def scoped_to(t, o):
     k = o["op"]
     if k in ("retemp", "prepare"):
         return o["t"] == t
-    if k in ("add", "goc", "goi", "pkg", "cexists", "iexists", "new", "newshort", "callfn", "newchild", "callcall"):
+    if k in ("add", "goc", "goi", "pkg", "cexists", "iexists", "new", "newshort", "callfn", "newchild", "callcall", "objcall"):
         return o["vm"] == t
     return False
 
@@ -117,6 +123,9 @@ def coq_ops(ops):
             out.append("XO ONewTemp")
         elif o["op"] == "req_end":
             out.append("XO (ODiscard %d)" % cur)
+        elif o["op"] == "objcall":
+            # entering a base-created shared object from the VM: its body resolves `new N` on the object's own VM (the base)
+            out.append("XObjCall %s %s" % (coq_vm(o["vm"]), coq_string(o["name"])))
         elif o["op"] == "callcall":
             # a base function body calling the function named N, run on the VM: a pure function lookup on that VM
             out.append("XCallFn %s %s" % (coq_vm(o["vm"]), coq_string(o["name"])))
@@ -210,8 +219,11 @@ def run_impl(binary, cases):
     return vworker.run_worker([binary], cases, per_case_timeout=60), 0, ""
 
 
-def mk(ops, names=LOOK, consts=CONSTS, shared=None, gc=False, callbacks=None, sharedfn=None):
+def mk(ops, names=LOOK, consts=CONSTS, shared=None, gc=False, callbacks=None, sharedfn=None, sharedobj=None):
     c = {"names": names, "consts": consts, "cp": CP, "ops": ops}
+    if sharedobj:
+        c["sharedobj"] = sharedobj
+        c["scripts"] = True
     if sharedfn:
         c["sharedfn"] = sharedfn
         c["scripts"] = True
@@ -222,7 +234,7 @@ def mk(ops, names=LOOK, consts=CONSTS, shared=None, gc=False, callbacks=None, sh
         c["scripts"] = True
     if gc:
         c["gc"] = True
-    if any(o["op"] in ("cexists", "iexists", "new", "newshort", "callfn", "newchild", "callcall") or o.get("route") == "eval" for o in ops):
+    if any(o["op"] in ("cexists", "iexists", "new", "newshort", "callfn", "newchild", "callcall", "objcall") or o.get("route") == "eval" for o in ops):
         c["scripts"] = True
     return c
 
@@ -522,6 +534,40 @@ def main(ck):
                     ops += [{"op": "req_begin"}] + ([{"op": "add", "vm": t, "kind": "c", "name": "Theme", "file": 0, "route": "parse"}] if t != 1 else []) + \
                            [{"op": use, "vm": t, "name": "Theme"}, {"op": "req_end"}]
                 cases.append((mk(fresh(ops), names=SHNAMES, consts=["K"], shared=["Theme", "Tint"], gc=True), 0))
+        # SHARED OBJECTS (seeded change C12-16: a method call rebinding a base-created object to the caller's VM): the base
+        # creates one object per class name N, kept in a static property; its bodies (ordinary method, __invoke, __get,
+        # __call) do `new N`.  It is entered from every VM through every route; the name is resolved by the object's own VM
+        # -- the base -- whoever calls, and an ordinary method call (ping) changes nothing for later entries
+        VIAS = ["method", "invoke", "get", "call"]
+
+        def obj_alpha(vms):
+            a = []
+            for v in [-1] + list(vms):
+                a += [{"op": "objcall", "vm": v, "name": "Theme", "route": via} for via in VIAS + ["ping", "ping"]]
+                a += [{"op": "add", "vm": v, "kind": "c", "name": "Theme", "file": 0, "route": "parse"}]
+            return a
+        for x in (0, 1):
+            for y in (-1, 1 - x, 2):
+                for via in VIAS:
+                    for first in ("ping", "method"):
+                        for basedef in (False, True):
+                            ops = pre + [{"op": "newtemp"}, {"op": "add", "vm": x, "kind": "c", "name": "Theme", "file": 0, "route": "parse"},
+                                         {"op": "objcall", "vm": x, "name": "Theme", "route": first},
+                                         {"op": "objcall", "vm": y, "name": "Theme", "route": via}] + \
+                                  ([{"op": "add", "vm": -1, "kind": "c", "name": "Theme", "file": 0, "route": "parse"}] if basedef else []) + \
+                                  [{"op": "objcall", "vm": x, "name": "Theme", "route": via}, {"op": "objcall", "vm": -1, "name": "Theme", "route": via}]
+                            ops = fresh(ops)
+                            cases.append((mk(ops, names=["Theme", "A"], consts=["K"], sharedobj=["Theme"]), x))
+        for _ in range(150 if ck.tier == "quick" else 3000):
+            al = obj_alpha((0, 1, 2))
+            ops = fresh(pre + [{"op": "newtemp"}] + [rng.choice(al) for _ in range(rng.randint(3, 9))])
+            t = rng.choice([0, 1, 2])
+            cases.append((mk(ops, names=["Theme", "A"], consts=["K"], sharedobj=["Theme"]), t if any(scoped_to(t, o) for o in ops) else None))
+        for via in VIAS:
+            ops = [{"op": "req_begin"}, {"op": "add", "vm": 0, "kind": "c", "name": "Theme", "file": 0, "route": "parse"}, {"op": "objcall", "vm": 0, "name": "Theme", "route": "ping"}, {"op": "req_end"},
+                   {"op": "objcall", "vm": -1, "name": "Theme", "route": via},
+                   {"op": "req_begin"}, {"op": "objcall", "vm": 1, "name": "Theme", "route": via}, {"op": "req_end"}]
+            cases.append((mk(fresh(ops), names=["Theme", "A"], consts=["K"], sharedobj=["Theme"]), 0))
         # the function side of the shared-code family: the base defines c12call_tf() { return tf(); } (tf undefined when the
         # body is parsed: a late-bound call node in a shared AST); tf is defined per VM, returning its definition's marker
         FNNAMES = ["tf", "tg", "A"]
@@ -569,7 +615,9 @@ def main(ck):
                 for n in ("Legacy", "LegacyB"):
                     a += [{"op": "pkg", "vm": v, "name": n}, {"op": "goc", "vm": v, "name": n}, {"op": "pkg", "vm": v, "name": n}]
                 a += [{"op": "goi", "vm": v, "name": "Legacy"}, {"op": "cexists", "vm": v, "name": "Legacy"}, {"op": "new", "vm": v, "name": "LegacyB"},
-                      {"op": "pkg", "vm": v, "name": "App\\P"}, {"op": "add", "vm": v, "kind": "c", "name": "Legacy", "file": 0, "route": "parse"}]
+                      {"op": "pkg", "vm": v, "name": "App\\P"}, {"op": "add", "vm": v, "kind": "c", "name": "A", "file": 0, "route": "parse"}]
+                # (no direct definition of a callback-provided name: a callback is re-run on every miss and overwrites a
+                # TempVM's own class of that name, which the class-path-file model of callbacks -- loaded once -- does not do)
             return a
         cal = cb_alpha((0, 1))
         for a in cal:
@@ -597,7 +645,7 @@ def main(ck):
         nrand = 400 if ck.tier == "quick" else 12000
         for _ in range(nrand):
             c = rand_case(rng, 40)
-            ts = sorted(set(o["vm"] for o in c["ops"] if o["op"] in ("add", "goc", "goi", "pkg", "cexists", "iexists", "new", "newshort", "callfn", "newchild", "callcall") and o["vm"] >= 0))
+            ts = sorted(set(o["vm"] for o in c["ops"] if o["op"] in ("add", "goc", "goi", "pkg", "cexists", "iexists", "new", "newshort", "callfn", "newchild", "callcall", "objcall") and o["vm"] >= 0))
             cases.append((c, rng.choice(ts) if ts else None))
 
     # WHERE the files of a history live (the files of routes parsefile / include / require_once and the class-path
@@ -778,7 +826,7 @@ def main(ck):
         b = min(len(ops) // 5 * 5, 40)
         lens[str(b)] = lens.get(str(b), 0) + 1
         # non-trivial: some TempVM operation and some operation on a different VM
-        tv = set(o["vm"] for o in ops if o["op"] in ("add", "goc", "goi", "pkg", "cexists", "iexists", "new", "newshort", "callfn", "newchild", "callcall"))
+        tv = set(o["vm"] for o in ops if o["op"] in ("add", "goc", "goi", "pkg", "cexists", "iexists", "new", "newshort", "callfn", "newchild", "callcall", "objcall"))
         if len(tv) >= 2 and any(v >= 0 for v in tv):
             nontriv += 1
     res = {}
